@@ -63,6 +63,7 @@ def generate(rng, tier, idx):
         probes = [p for p in info['need']]
         rng.shuffle(probes)
         return {'prop': ID, 'mode': 'transparency', 'order_key': '%016x' % rng.getrandbits(64),
+                'chunks': rng.choice([None, None, 'mixed', 'tiny', 4096]),
                 'tree': g['tree'], 'manifests': g['manifests'], 'muts': muts, 'assigns': assigns,
                 'probes': probes[:3], 'subs': sorted(set([''] + [d for d in info['view_dirs'] if d and rng.random() < 0.3]))[:3]}
     sc = GU.gen_history(rng, {'tree': {'p_dup': 0.02}})
@@ -123,7 +124,7 @@ def observe(sc):
         w.build()
         for m in sc.get('muts', []):
             w.mutate(m)
-        seam = Seam(w.root, order_key=sc['order_key'])
+        seam = Seam(w.root, order_key=sc['order_key'], read_chunks=sc.get('chunks'))
         if blocking_manifest(w.root):
             return None, seam, [], None
         top = os.path.join(w.root, 'Manifest')
